@@ -515,6 +515,11 @@ func classifyErr(v ssa.Value, at ssa.Instruction, pred *ssa.BasicBlock, depth in
 		if nonNilErrCtors[callName(x)] {
 			return errNonNil
 		}
+		if callName(x) == "(context.Context).Err" {
+			// `return ctx.Err()` is the cancellation idiom: taken after ctx.Done()
+			// fired (or ctx.Err() != nil was tested); treat as a failure return.
+			return errNonNil
+		}
 		if callee := x.Call.StaticCallee(); callee != nil && len(callee.Blocks) > 0 {
 			sum := errSummaryOf(callee)
 			switch {
